@@ -8,6 +8,7 @@ import (
 	"time"
 
 	"github.com/mosaicnetworks/babble/src/common"
+	"github.com/mosaicnetworks/babble/src/crypto/keys"
 	hg "github.com/mosaicnetworks/babble/src/hashgraph"
 	"github.com/mosaicnetworks/babble/src/peers"
 	"github.com/mosaicnetworks/babble/src/proxy"
@@ -405,10 +406,8 @@ func (c *core) fastForward(block *hg.Block, frame *hg.Frame) error {
 // checkFastForward verifies, without any side-effect, that a Block and Frame
 // are consistent and sufficiently signed to reset the hashgraph from them.
 func (c *core) checkFastForward(block *hg.Block, frame *hg.Frame) error {
-	for _, p := range frame.Peers {
-		if p == nil {
-			return fmt.Errorf("Invalid Frame: nil peer")
-		}
+	if err := checkFrameStructure(frame); err != nil {
+		return err
 	}
 
 	peerSet := peers.NewPeerSet(frame.Peers)
@@ -452,6 +451,53 @@ func (c *core) checkFastForward(block *hg.Block, frame *hg.Frame) error {
 		return fmt.Errorf("Block is not signed by any known validator")
 	}
 
+	return nil
+}
+
+// checkFrameStructure verifies that a Frame received from another node has no
+// missing parts (nil peers, roots or events, events without two parents or
+// with an unreadable signature), which the reset and sorting routines would
+// otherwise dereference.
+func checkFrameStructure(frame *hg.Frame) error {
+	for _, p := range frame.Peers {
+		if p == nil {
+			return fmt.Errorf("Invalid Frame: nil peer")
+		}
+	}
+	for _, ps := range frame.PeerSets {
+		for _, p := range ps {
+			if p == nil {
+				return fmt.Errorf("Invalid Frame: nil peer in peer-sets")
+			}
+		}
+	}
+	checkEvent := func(fe *hg.FrameEvent) error {
+		if fe == nil || fe.Core == nil {
+			return fmt.Errorf("Invalid Frame: nil event")
+		}
+		if len(fe.Core.Body.Parents) != 2 {
+			return fmt.Errorf("Invalid Frame: event without two parents")
+		}
+		if r, s, err := keys.DecodeSignature(fe.Core.Signature); err != nil || r == nil || s == nil {
+			return fmt.Errorf("Invalid Frame: event with unreadable signature")
+		}
+		return nil
+	}
+	for _, r := range frame.Roots {
+		if r == nil {
+			return fmt.Errorf("Invalid Frame: nil root")
+		}
+		for _, fe := range r.Events {
+			if err := checkEvent(fe); err != nil {
+				return err
+			}
+		}
+	}
+	for _, fe := range frame.Events {
+		if err := checkEvent(fe); err != nil {
+			return err
+		}
+	}
 	return nil
 }
 
